@@ -141,6 +141,11 @@ pub(crate) struct CoreInner {
 	/// Lock file to prevent multiple processes from opening the same database
 	pub(crate) lockfile: Mutex<LockFile>,
 
+	/// Serializes the flushes of immutable memtables: the background task, a checkpoint
+	/// and `flush_all_immutables_sync` all take "the oldest one", and two of them at once
+	/// would write the same table file.
+	pub(crate) flush_lock: Mutex<()>,
+
 	/// Background error handler
 	pub(crate) error_handler: Arc<BackgroundErrorHandler>,
 
@@ -211,6 +216,7 @@ impl CoreInner {
 			wal: WalManager::new(wal_instance),
 			versioned_index,
 			lockfile: Mutex::new(lockfile),
+			flush_lock: Mutex::new(()),
 			error_handler: Arc::new(BackgroundErrorHandler::new()),
 			visible_seq_num,
 		})
@@ -443,6 +449,9 @@ impl CoreInner {
 	/// 2. Flushes it to SST via flush_immutable_to_sst (which also removes from queue)
 	/// 3. Schedules async WAL cleanup
 	fn flush_oldest_immutable_to_sst(&self) -> Result<Option<Arc<Table>>> {
+		// One flush at a time: whoever comes second finds the entry gone and takes the next.
+		let _flushing = self.flush_lock.lock()?;
+
 		// Get the oldest immutable entry (clone to release lock before I/O)
 		let entry = {
 			let guard = self.immutable_memtables.read()?;
